@@ -57,10 +57,7 @@ func (w *World) LayoutCheck() {
 		return
 	}
 	full := w.Root + "/" + dir
-	ext := w.Cfg.Ext
-	if ext == "" {
-		ext = ".json"
-	}
+	ext := w.Cfg.BaseExt()
 	if w.Cfg.Compress {
 		ext += ".gz"
 	}
@@ -144,10 +141,7 @@ func (w *World) LayoutCheck() {
 			fail("schema-key-unknown", "schema.json has an unknown key "+k)
 		}
 	}
-	baseExt := w.Cfg.Ext
-	if baseExt == "" {
-		baseExt = ".json"
-	}
+	baseExt := w.Cfg.BaseExt()
 	if doc["extension"] != baseExt || doc["compress"] != w.Cfg.Compress {
 		fail("schema-settings", fmt.Sprintf("schema.json records extension=%v compress=%v, configuration is %s / %v", doc["extension"], doc["compress"], baseExt, w.Cfg.Compress))
 	}
@@ -281,9 +275,11 @@ type GoldenEntry struct {
 }
 
 type GoldenCorpus struct {
-	PinnedCommit string        `json:"pinned_commit"`
-	Note         string        `json:"note"`
-	Entries      []GoldenEntry `json:"entries"`
+	// DirNames: "<type>|asis" / "<type>|lower" -> directory name chosen by the pinned release
+	DirNames     map[string]string `json:"dir_names"`
+	PinnedCommit string            `json:"pinned_commit"`
+	Note         string            `json:"note"`
+	Entries      []GoldenEntry     `json:"entries"`
 }
 
 func goldenAlphabet() []Op {
@@ -366,6 +362,7 @@ func runGoldenGen(c *Ctx) {
 			c.Distinct("states", key)
 		}
 	}
+	corpus.DirNames = dirNames()
 	data, _ := json.Marshal(corpus)
 	if err := os.WriteFile(out, data, 0644); err != nil {
 		panic(err)
@@ -417,7 +414,7 @@ func runC18(c *Ctx) {
 		depth = 5
 	}
 	cfgs := append([]Cfg{}, cfgQuick...)
-	cfgs = append(cfgs, Cfg{Compress: true, Lower: true}, Cfg{Ext: ".obj", Async: 1, Compress: true})
+	cfgs = append(cfgs, Cfg{Compress: true, Lower: true}, Cfg{Ext: ".obj", Async: 1, Compress: true}, Cfg{Ext: "-"}, Cfg{Ext: "-", Compress: true, Cache: true})
 	for _, cfg := range cfgs {
 		cfg := cfg
 		e := &Explorer{C: c, Cfg: cfg, Prop: "C18", Alphabet: alphabetMixed(cfg), Depth: depth, MaxLive: 3}
@@ -441,6 +438,25 @@ func runC18(c *Ctx) {
 	corpus, err := loadCorpus()
 	if err != nil {
 		panic("C18: cannot load the golden corpus: " + err.Error())
+	}
+	// directory names: the pinned release and the current code must agree for every naming type
+	if c.Shard == 0 {
+		now := dirNames()
+		for k, want := range corpus.DirNames {
+			c.Count("evaluations", 1)
+			c.Distinct("states", "dirname|"+k)
+			c.Distinct("distinct_nontrivial", "dirname|"+k)
+			if got := now[k]; got != want {
+				c.Violation(Violation{Sig: "C18|dir-name-changed|" + k[strings.Index(k, "|")+1:], What: fmt.Sprintf("the collection of type %s is stored in directory %q, the pinned release uses %q: its databases would not be found", k, got, want)})
+			}
+			parts := strings.SplitN(k, "|", 2)
+			if parts[1] == "asis" && !strings.HasSuffix(want, "."+parts[0]) {
+				c.Violation(Violation{Sig: "C18|dir-name-not-type", What: fmt.Sprintf("directory %q is not named after the struct type %s", want, parts[0])})
+			}
+			if parts[1] == "lower" && (want != strings.ToLower(want) || strings.ReplaceAll(want, "_", "") != strings.ToLower("main."+strings.ReplaceAll(parts[0], "_", ""))) {
+				c.Violation(Violation{Sig: "C18|dir-name-not-snake", What: fmt.Sprintf("directory %q is not a lower-case snake form of the struct type %s", want, parts[0])})
+			}
+		}
 	}
 	follow := goldenAlphabet()
 	follow = append(follow, Op{Op: "delall"}, Op{Op: "sdel", Field: "A", Cmp: ">=", Probe: 2}, Op{Op: "create"}, Op{Op: "createflip"})
